@@ -1,0 +1,19 @@
+//go:build verif
+
+package sstables
+
+import (
+	"github.com/thomasjungblut/go-sstables/recordio"
+	rProto "github.com/thomasjungblut/go-sstables/recordio/proto"
+)
+
+// VerifWriterWrap is a verification-only hook (build tag verif). When set, it is called at the end of
+// SSTableStreamWriter.Open and may replace the index and data writers, e.g. with writers that fail at a
+// chosen call. It must be set before writers are opened and must itself be safe for concurrent use.
+var VerifWriterWrap func(basePath string, index rProto.WriterI, data recordio.WriterI) (rProto.WriterI, recordio.WriterI)
+
+func verifWrapWriters(w *SSTableStreamWriter) {
+	if f := VerifWriterWrap; f != nil {
+		w.indexWriter, w.dataWriter = f(w.opts.basePath, w.indexWriter, w.dataWriter)
+	}
+}
